@@ -11,11 +11,7 @@ import random
 from vf import core
 
 THEOREMS = [
-    "signal_no_lost_raise", "signal_wake_after_sleep", "signal_word_domain",
-    "chan_exactly_once_in_sender_order", "chan_receiver_not_stranded",
-    "bounded_capacity", "bounded_exactly_once_in_order", "bounded_receiver_not_stranded",
-    "multichan_no_stranded_refuted", "multichan_capacity_partial", "multichan_exactly_once_in_order_partial",
-    "multichan_no_stranded_partial",
+    "multichan_no_stranded_refuted",
 ]
 T1_SOURCES = ["src/fiber_manager.c", "src/fiber.c", "src/fiber_mutex.c", "src/fiber_spinlock.c",
               "src/hazard_pointer.c"]
